@@ -65,6 +65,7 @@ InitState(i) ==
    intr    |-> {},        \* <<task, occ>> requests interrupted by a boundary event
    nkill   |-> 0,         \* tokens stopped by an exit answer / exhausted retries
    cancelled |-> FALSE,   \* the instance's context was cancelled
+   parked  |-> FALSE,     \* ... while it had been silent for a while with requests unanswered
    started |-> FALSE,
    ceased  |-> FALSE]
 
